@@ -87,6 +87,8 @@ def replay(prop, rec, idx):
             outcome = json.loads(last[-1][7:]) if last else {"status": "error", "stderr": r.stderr[-800:]}
         except Exception as e:  # pragma: no cover
             outcome = {"status": "error", "stderr": repr(e)}
+    if not rec.get("scenario"):
+        path.parent.mkdir(parents=True, exist_ok=True)
     doc["replay_outcome"] = outcome
     path.write_text(json.dumps(doc, indent=1, default=str))
     return path, outcome
@@ -166,12 +168,18 @@ def main():
     discharged = [r for r in recs if r["verdict"] == "discharged"]
     violations, known_hits = [], []
     seen_known = set()
+    replayed = {}
     for i, rec in enumerate(refuted):
         k = match_known(known, prop, rec)
         if k is not None:
             known_hits.append((k, rec))
             continue
+        if rec["name"] in replayed:          # same obligation refuted on another path: one replay is enough
+            continue
+        if len(replayed) >= int(os.environ.get("PYVC_MAX_REPLAYS", "8")):
+            rec = dict(rec, scenario=None)    # still reported, replay file carries the solver output
         path, outcome = replay(prop, rec, i)
+        replayed[rec["name"]] = path
         rec["replay_file"] = str(path)
         rec["replay_outcome"] = outcome
         violations.append((rec, path, outcome))
